@@ -159,6 +159,12 @@ impl TcpServer {
                                                 };
                                                 if let Some(index) = index {
                                                     log::info!("tcp server fake-key action: {name},{action:?}");
+                                                    k.vkeys_pending_release.remove(
+                                                        &kanata_parser::custom_action::Coord {
+                                                            x: FAKE_KEY_ROW,
+                                                            y: index,
+                                                        },
+                                                    );
                                                     handle_fakekey_action(
                                                         to_action(action),
                                                         k.layout.bm(),
